@@ -644,6 +644,20 @@ def _json_equal(a, b):
     return False
 
 
+_EXTRA_PAIRS = [
+    ({"a": 1}, [["a"], [1]]), ({"a": 1}, [["a", 1]]), ({"a": 1}, ["a", 1]), ({"a": 1}, [("a",), (1,)][0:0] or [["a"], 1]), ({}, []), ([], ""), ({}, ""), ({"a": [1]}, [["a"], [[1]]]),
+    ({"a": 1, "b": 2}, [["a", "b"], [1, 2]]), ({"a/b": True, "a": {"b": 1}}, {"a/b": 1, "a": {"b": True}}), ({"a.b": 0, "a": {"b": False}}, {"a.b": False, "a": {"b": 0}}),
+    ({"1": 0}, [0]), ({"0": "x"}, ["x"]), ("1", 1), ("true", True), ("null", None), ([1, 2], "12"), ([1, 2], "[1, 2]"), ({"a": 1}, '{"a": 1}'), ([[1], [2]], [[1, 2]]),
+    ([1, [2]], [[1], 2]), ({"a": {"b": 1}}, {"a": [["b"], [1]]}), ([None], []), ([[]], []), ([{}], [[]]), ({"a": None}, {}), ({"a": []}, {"a": {}}),
+]
+_LONG_PAIRS = [
+    (1, 1.0), (1, True), (0, False), (0, -0.0), (0.0, False), ("a", "a"), ("a", "b"), ([1], [1.0]), ([1], [True]), ({"id": 1}, {"id": 1.0}), ({"id": 1}, {"id": True}),
+    ({"id": 0}, {"id": False}), ({"a": 1, "b": 2}, {"b": 2, "a": 1}), ([[0]], [[False]]), (None, None), (2 ** 53, 2.0 ** 53), (100, 1e2), (10 ** 30, 1e30),
+    ({"k": [1, {"z": 0}]}, {"k": [1, {"z": False}]}), ({"k": [1, {"z": 0}]}, {"k": [1, {"z": 0.0}]}), (1, 2), ([1, 2], [2, 1]), ({"a": 1}, {"a": 2}), ({"a": 1}, [["a"], [1]]),
+    (True, True), (False, 0.0), ("1", 1), ([], {}), ([True], [1.0]),
+]
+
+
 def rule_relation_table(ctx, roots, rid="R8.5"):
     """const, enum and uniqueItems evaluated (sa/tokeval.py) on every pair of a table of JSON values against the reference relation;
     and on each other: const c accepts x iff enum [c] does iff uniqueItems rejects [c, x]."""
@@ -691,6 +705,36 @@ def rule_relation_table(ctx, roots, rid="R8.5"):
                 for kw, g in got.items():
                     if g != want and kw not in bad:
                         bad[kw] = "%s treats %r and %r as %s; as JSON values they are %s" % (kw, a, b, "equal" if g else "different", "equal" if want else "different")
+        # values of different kinds that a canonical form might confuse (an object and an array spelling out its keys and values,
+        # keys that look like paths), in both orders, whatever the tier
+        for a, b in _EXTRA_PAIRS:
+            for x, y in ((a, b), (b, a)):
+                n += 1
+                want = _json_equal(x, y)
+                got = {"enum": errors("enum", [x], y) == 0, "uniqueItems": errors("uniqueItems", True, [x, y]) > 0}
+                if "const" in by_kw:
+                    got["const"] = errors("const", x, y) == 0
+                for kw, g in got.items():
+                    if g != want and kw not in bad:
+                        bad[kw] = "%s treats %r and %r as %s; as JSON values they are %s" % (kw, x, y, "equal" if g else "different", "equal" if want else "different")
+        # uniqueItems on long arrays: the pair far apart among 70 other, pairwise different elements of one kind (numbers: hashable;
+        # one-element arrays: sortable; objects: neither) -- a strategy chosen by length or by element kind decides the same relation
+        for a, b in _LONG_PAIRS:
+            want = _json_equal(a, b)
+            # a long enum: the member that matters is the last of twelve (strings, then numbers before it)
+            for pad in (["s%d" % i for i in range(11)], [1000 + i for i in range(11)], [{"pad": i} for i in range(11)]):
+                n += 1
+                g = errors("enum", pad + [a], b) == 0
+                if g != want and "enum" not in bad:
+                    bad["enum"] = "enum with %r as the last of twelve members treats the instance %r as %s; as JSON values they are %s" % (
+                        a, b, "a member" if g else "no member", "equal" if want else "different")
+            for kind, pad in (("numbers", [1000 + i for i in range(70)]), ("arrays", [[1000 + i] for i in range(70)]), ("objects", [{"pad": i} for i in range(70)])):
+                arr = pad[:3] + [a] + pad[3:68] + [b] + pad[68:]
+                n += 1
+                g = errors("uniqueItems", True, arr) > 0
+                if g != want and "uniqueItems" not in bad:
+                    bad["uniqueItems"] = "uniqueItems treats %r and %r as %s when they are elements 3 and 69 of an array of 72 (the others: distinct %s); as JSON values they are %s" % (
+                        a, b, "equal" if g else "different", kind, "equal" if want else "different")
     except Undecided as u:
         for kw in sorted(by_kw):
             r.ok(site(by_kw[kw]) + " [%s]" % kw, "NOT DECIDED: %s" % u)
